@@ -222,6 +222,7 @@ Inductive callkind := KCall | KCallCode | KDelegate | KStatic.
 Inductive action :=
 | ASstore (k : key) (v : N)
 | ALog (topic : N)
+| ALogT (k : key)                            (* LOG1 whose topic is TLOAD(k): what the frame finds in its transient storage *)
 | ATstore (k : key) (v : N)
 | ACall (kind : callkind) (target : addr) (value : N)
 | ACreate (value : N) (init : N)             (* CREATE and CREATE2: the address comes from the oracle *)
@@ -273,7 +274,7 @@ Definition rres : Type := outcome * list log * state.
 (* jump_table.go / eips.go: the writes flag of the opcode an action compiles to *)
 Definition writes_flag (a : action) : bool :=
   match a with
-  | ASstore _ _ | ALog _ | ACreate _ _ => true
+  | ASstore _ _ | ALog _ | ALogT _ | ACreate _ _ => true
   | _ => false
   end.
 Definition fin_writes (f : endmode) : bool := match f with ESelfdestruct _ => true | _ => false end.
@@ -502,6 +503,9 @@ Section Exec.
         | ALog t =>
             let lg := mkLog (self cx) t (thash s) (txindex s) (logsize (dat s)) in
             run_acts cx lc rest f (clogs ++ [lg]) (push (add_log (thash s) lg) s)
+        | ALogT k =>
+            let lg := mkLog (self cx) (tstor (dat s) (self cx) k) (thash s) (txindex s) (logsize (dat s)) in
+            run_acts cx lc rest f (clogs ++ [lg]) (push (add_log (thash s) lg) s)
         | ATstore k v =>
             if static cx then (OErr err_write_protection, [], s)       (* opTstore guards itself *)
             else run_acts cx lc rest f clogs (push (set_transient (self cx) k v) s)
@@ -554,7 +558,8 @@ Fixpoint run (progs : list prog) (fuel : nat) (cx : ctx) (c : N) (s : state) : r
   end.
 
 (* ---------- transactions: Prepare, then one top-level Call or Create by the origin ---------- *)
-Inductive txkind := TCall (target : addr) (value : N) | TCreate (value : N) (init : N).
+(* TNone: a transaction kind that does not run the EVM (the block loop still calls Prepare for it) *)
+Inductive txkind := TCall (target : addr) (value : N) | TCreate (value : N) (init : N) | TNone.
 
 Record tx := mkTx { t_hash : N; t_index : N; t_origin : addr; t_kind : txkind; t_oracle : list addr }.
 
@@ -563,6 +568,7 @@ Definition exec_top (progs : list prog) (fuel : nat) (t : tx) (s : state) : rres
   match t_kind t with
   | TCall target value => do_call (run progs fuel) cx KCall target value s
   | TCreate value init => do_create progs (run progs fuel) cx value init s
+  | TNone => (OOk, [], s)
   end.
 
 Definition exec_tx (progs : list prog) (fuel : nat) (t : tx) (s : state) : rres :=
